@@ -7,7 +7,7 @@ with a plain identifier as label in column 1 and a plain mnemonic; everything el
 import re
 
 LABEL_RE = re.compile(r"^[A-Za-z_][A-Za-z0-9_]*:?$")
-MNEMO_RE = re.compile(r"^[A-Za-z][A-Za-z0-9]*(\.[A-Za-z0-9]+)?$")
+MNEMO_RE = re.compile(r"^[A-Za-z][A-Za-z0-9]*([:./][A-Za-z0-9]+)*$")
 WS = " \t"
 # mnemonics after which a colon may be added to / removed from a column-1 label without the label being
 # the *name operand* of the statement (EQU, SET, MACRO, STRUCT, ... take their name from the label field)
